@@ -20,7 +20,16 @@ if not loc.endswith('_test.go'):
     mm=re.search(r'([\w/.\-]+_test\.go)', m.get('demo_location') or '')
     loc=mm.group(1) if mm else 'demo_seed_test.go'
 cmd=m.get('demo_cmd') or ''
-cmd=re.sub(r'\s*\(no -race\)\s*$','',cmd)
+cmd=re.sub(r'\s*\([^()]*\)\s*$','',cmd)
+# a command that first copies the demo somewhere ("cp demo_test.go <repo>/x_test.go; cd <repo> && go test ..."): the copy is
+# done here (to the named file), only the go test part is run, in the directory the command changes into
+mcp=re.search(r'cp\s+\S*demo_test\.go\s+(?:<repo>|\$\w+|\.)/?(\S+_test\.go)', cmd)
+if mcp: loc=mcp.group(1)
+mgo=re.search(r'(go test[^;&|]*)', cmd)
+if mgo and ('<repo>' in cmd or mcp):
+    sub=re.search(r'cd\s+<repo>/(\S+)', cmd)
+    cmd=('cd %s && ' % sub.group(1) if sub else '')+mgo.group(1).strip()
+if 'GOFLAGS' not in cmd: cmd='export GOFLAGS=-mod=mod GOPROXY=off GOSUMDB=off GOTOOLCHAIN=local; '+cmd
 def sh(c,timeout=900):
     try:
         r=subprocess.run(['bash','-c',c],cwd=wt,stdout=subprocess.PIPE,stderr=subprocess.STDOUT,text=True,timeout=timeout)
